@@ -777,7 +777,8 @@ package service
 //@ func timedCopy$1
 //@   props C03 C04 C16 C18
 //@   requires clientAddr != nil && clientConn != nil && validNatconn(targetConn) && l != nil
-//@   requires len(pkt) == serverUDPBufferSize && !expired
+//@   requires len(pkt) == serverUDPBufferSize && !expired && private(pkt)
+//@   trace[C03,C19,replies-are-encrypted-in-a-buffer-private-to-this-association] each shadowsocks.Pack satisfies private($arg0)
 //@   requires saltSize == pure("shadowsocks.(*EncryptionKey).SaltSize", targetConn.cryptoKey) && bodyStart == saltSize + maxAddrLen
 //@   trace[C03,reads-into-body-area] each service.(*natconn).ReadFrom satisfies $arg0 == targetConn && $arg1.$arr == pkt.$arr && $arg1.$off == pkt.$off + bodyStart && len($arg1) == len(pkt) - bodyStart
 //@   trace[C16,body-size-is-bytes-read] each service.(*natconn).ReadFrom satisfies bodyLen == $res0
@@ -1033,15 +1034,22 @@ package service
 //@   trace[C07,authenticator-gets-service-cache] each service.NewShadowsocksStreamAuthenticator satisfies $arg1 == as(result.0, "*service.ssService").replayCache
 //@   trace[C09,handlers-use-service-keys] each service.NewShadowsocksStreamAuthenticator satisfies $arg0 == as(result.0, "*service.ssService").ciphers
 //@   trace[C09,packet-handler-uses-service-keys] each service.NewPacketHandler satisfies $arg1 == as(result.0, "*service.ssService").ciphers
+//@   trace[C16,C17,packet-handler-reports-to-the-service-metrics] each service.NewPacketHandler satisfies $arg2 == as(result.0, "*service.ssService").metrics && $arg0 == as(result.0, "*service.ssService").natTimeout
+//@   trace[C01,C03,one-stream-handler-and-one-packet-handler] holds evcount("service.NewStreamHandler") == 1 && evcount("service.NewPacketHandler") == 1
+//@   trace[C01,C06,stream-handler-uses-this-authenticator] each service.NewStreamHandler satisfies $arg0 == evres("service.NewShadowsocksStreamAuthenticator", 0)
 //@   requires forall i int :: 0 <= i && i < len(opts) ==> opts[i] != nil
 //@   ensures result.0 != nil && result.1 == nil
 //@ func NewCipherList
 //@   props C18
 //@   ensures result != nil
 //@ func (*ssService).HandleStream
-//@   props C15 C18
+//@   props C15 C17 C18
 //@   params s ctx conn
 //@   requires s != nil && s.sh != nil && conn != nil
+//@   trace[C15,C17,every-connection-opened-in-the-service-metrics] exactly 1 service.ServiceMetrics.AddOpenTCPConnection when s.metrics != nil
+//@   trace[C15,opened-for-this-connection] each service.ServiceMetrics.AddOpenTCPConnection satisfies $recv == s.metrics && $arg0 == conn
+//@   trace[C15,handled-once-with-its-own-metrics] exactly 1 service.StreamHandler.Handle
+//@   trace[C15,C17,handler-reports-to-this-connections-metrics] each service.StreamHandler.Handle satisfies $recv == s.sh && $arg1 == conn && $arg0 == ctx && (evcount("service.ServiceMetrics.AddOpenTCPConnection") == 1 ==> $arg2 == evres("service.ServiceMetrics.AddOpenTCPConnection", 0))
 //@ func (*ssService).HandlePacket
 //@   props C18
 //@   params s conn
